@@ -92,8 +92,30 @@ def removed_brace_pairs(a, b):
             j = pairs[i]
             if i > 0 and a[i - 1] == "{" and pairs.get(i - 1) == j + 1:
                 continue          # '{ { ... } }': removing the inner or the outer pair gives the same tokens; the outer one holds one statement
-            out.append(a[i + 1:j])
+            out.append(DBody(a[i + 1:j], a[j + 1] if j + 1 < len(a) else None))
     return out
+
+
+class DBody(list):
+    """tokens inside a removed brace pair; .after = the token that followed the closing brace"""
+    def __init__(self, toks, after):
+        list.__init__(self, toks)
+        self.after = after
+
+
+def open_if(tokens):
+    """does the body end in an 'if' statement that has no 'else' of its own (at the body's top nesting level)?"""
+    depth, ifs = 0, 0
+    for t in tokens:
+        if t in "([{":
+            depth += 1
+        elif t in ")]}":
+            depth -= 1
+        elif depth == 0 and t == "if":
+            ifs += 1
+        elif depth == 0 and t == "else":
+            ifs -= 1
+    return ifs > 0
 
 
 def statements_in(tokens):
@@ -164,6 +186,10 @@ def judge(case, R, tin, tout, f):
             if statements_in(body) > 1:
                 f.append(("braces-removed-around-block", "braces removed around %d statements: %s" % (statements_in(body), " ".join(body)[:120])))
                 break
+            if getattr(body, "after", None) == "else" and open_if(body):
+                f.append(("dangling-else", "braces removed around an 'if' without 'else' although an 'else' follows the block: it now belongs to the inner if: %s"
+                          % " ".join(body)[:120]))
+                break
 
 
 SHAPES = ["if (a) b = 1; else c = 2;", "if (a) { b = 1; c = 2; } else d = 3;", "if (a) if (b) c = 1; else d = 2;",
@@ -174,7 +200,8 @@ SHAPES = ["if (a) b = 1; else c = 2;", "if (a) { b = 1; c = 2; } else d = 3;", "
                                                        "if (a &&\n    b) { while (c) d--; } else { e = 1; }", "if (a) { for (i = 0;\n     i < 3; i++) b++; } else { c = 2; }",
                                                        "if (a ||\n    b) { c = 1; }", "if (a) { if (f(b,\n   c)) d = 1; }", "if (a) { switch (b) { case 1: c = 2; break; } } else { d = 3; }",
                                                        "while (a &&\n       b) { c--; }", "for (a = 0;\n     a < 3;\n     a++) { b++; }", "if (a) { while (f(b,\n    c)) d--; } else if (e) { g(1,\n 2); } else { h = 1; }",
-                                                       "if (a) {\n/* *INDENT-OFF* */\n  b  =  1;\n/* *INDENT-ON* */\n  c = 2;\n}", "while (a) {\n// *INDENT-OFF*\n  b  =  1; c--;\n// *INDENT-ON*\n}", "if (a) { int v = 1; }", "if (a) { MACRO(b) }", "#define RET_A return a // result\nif (b) { RET_A; }", "#define BUMP if (a) b++ /* bump */\nBUMP;", "return (a);", "return a + 1;", "return (a) + (b);"]
+                                                       "if (a) {\n/* *INDENT-OFF* */\n  b  =  1;\n/* *INDENT-ON* */\n  c = 2;\n}", "while (a) {\n// *INDENT-OFF*\n  b  =  1; c--;\n// *INDENT-ON*\n}", "if (a) for (i = 0; i < 2; i++) while (b) { if (c) d = 1; } else e = 2;", "if (a) while (b) { if (c) d = 1; } else e = 2;", "if (a) for (;;) { if (c) break; } else e = 2;",
+                                                       "if (a) { int v = 1; }", "if (a) { MACRO(b) }", "#define RET_A return a // result\nif (b) { RET_A; }", "#define BUMP if (a) b++ /* bump */\nBUMP;", "return (a);", "return a + 1;", "return (a) + (b);"]
 
 
 # option pairs that only act together
